@@ -62,12 +62,17 @@ package resolver
 // division or conversion in the body of these functions can panic. Loop counters that start at a constant and are
 // only incremented get their lower bound as an automatic invariant (`opt auto-counters`); nothing else is assumed.
 // Calls are replaced by contracts, inlined, or havocked: a panic inside a callee without a contract is not covered.
+// C02 ("importing a data: URL yields exactly the resource the URL denotes"): the WHATWG Fetch "data: URL processor"
+// serialises the URL with the fragment EXCLUDED before it looks for the comma, so nothing from the first '#' on belongs
+// to the media type or to the body (node: `import 'data:text/javascript,a=1//#;%0Aa=2'` runs only `a=1//`).
 //@ func ParseDataURL
 //@   arith int
 //@   nooverflow off
 //@   safety
 //@   opt auto-counters 1
-//@   prop C16
+//@   opt scenario dataurl_import_fragment
+//@   prop C16 C02
+//@   ensures fragment-excluded: ok ==> (forall k int :: 0 <= k && k < len(parsed.data) ==> parsed.data[k] != '#')
 
 //@ func globstarToEscapedRegexp
 //@   arith int
